@@ -56,8 +56,10 @@ class Secp256k1PublicKeyEcdsa(IPublicKey):
             ValueError: If key bytes are not valid
         """
         try:
+            # Same encodings accepted by the coincurve-based class (the raw one is excluded)
             return cls(ecdsa.VerifyingKey.from_string(key_bytes,
-                                                      curve=curves.SECP256k1))
+                                                      curve=curves.SECP256k1,
+                                                      valid_encodings=("uncompressed", "compressed", "hybrid")))
         except keys.MalformedPointError as ex:
             raise ValueError("Invalid public key bytes") from ex
 
